@@ -1,0 +1,23 @@
+//go:build verif
+
+// Contracts for govc (the /verif contract verifier). Comment-only: with the build tag off this file is not
+// compiled, with it on it adds no code.
+package formats
+
+// C25 CSV: a scalar value is appended to the cell builder as: NULL -> nothing (empty field), Int -> strconv.FormatInt
+// base 10 (exact), Float -> strconv.FormatFloat('f', -1, 64) (shortest exact decimal), Boolean -> FormatBool,
+// String -> the bytes verbatim; composite values are outside CSV's domain (C07: they panic).
+//@ func FormatCSVValue
+//@   requires builder != nil
+//@   ensures null: value.TypeID == 0 ==> built(builder) == old(built(builder))
+//@   ensures int: value.TypeID == 1 ==> built(builder) == old(built(builder)) + extStr("strconv.FormatInt", value.Int, 10)
+//@   ensures float: value.TypeID == 2 ==> built(builder) == old(built(builder)) + extStr("strconv.FormatFloat", value.Float, 102, 0 - 1, 64)
+//@   ensures bool: value.TypeID == 3 ==> built(builder) == old(built(builder)) + extStr("strconv.FormatBool", value.Boolean)
+//@   ensures string: value.TypeID == 4 ==> built(builder) == old(built(builder)) + value.Str
+// One cell per value, in order, each built from an empty builder; the row is handed to csv.Writer once (quoting is
+// encoding/csv's, trusted).
+//@ func (*CSVFormatter).Write
+//@   loop 1 invariant cells: 0 <= $k && $k <= len(values) && len(row) == len(values) && built(builder) == ""
+//@   loop 1 step cell: values[i].TypeID == 4 ==> row[i] == values[i].Str
+//@   loop 1 step cellnull: values[i].TypeID == 0 ==> row[i] == ""
+//@   loop 1 step cellint: values[i].TypeID == 1 ==> row[i] == extStr("strconv.FormatInt", values[i].Int, 10)
